@@ -29,7 +29,7 @@ Definition c05_check (c : c05case) : bool :=
       bytes_eqb (print_uint n) lit && match parse_uint lit with Some n' => N.eqb n n' | None => false end
   | CScope pkg other types ctx refpkg ref printed resolved =>
       let st := {| st_types := types; st_pkgs := [pkg; other] |} in
-      let short := context_ref_name pkg ctx refpkg ref in
-      bytes_eqb (join_dot short) printed
-      && option_eqb qname_eqb (resolve st pkg ctx short) resolved
+      let p := context_ref_name_safe st pkg ctx refpkg ref in
+      bytes_eqb (printed_text p) printed
+      && option_eqb qname_eqb (resolve_printed st pkg ctx p) resolved
   end.
